@@ -272,6 +272,12 @@ struct Driver<'a> {
     /// number of calls (since restart) whose effects are acknowledged as durable
     acked: usize,
     rotated: bool,
+    /// a rotation happened since the last completed checkpoint: only then can the recorded finding
+    /// `rotation-drops-log` (recovery ignores the rotated file) explain a loss - after a checkpoint
+    /// the snapshot covers everything the rotated file held
+    rotated_since_cp: bool,
+    /// inode of store.wal.1 when last looked at (a rotation puts another file there)
+    rot_ino: Option<u64>,
     torn_tail_pending: bool,
     torn_tail_then_append: bool,
 }
@@ -293,7 +299,7 @@ impl<'a> Driver<'a> {
         std::fs::create_dir_all(&live).map_err(|e| Fail::new("harness", e.to_string()))?;
         let store = TensorStore::open_durable(wal_path(&live), wal_config(case)).map_err(|e| Fail::new("harness", e.to_string()))?;
         let st = observe(&store);
-        Ok(Self { case, root, gen: 0, live, store, states: vec![st], acked: 0, rotated: false, torn_tail_pending: false, torn_tail_then_append: false })
+        Ok(Self { case, root, gen: 0, live, store, states: vec![st], acked: 0, rotated: false, rotated_since_cp: false, rot_ino: None, torn_tail_pending: false, torn_tail_then_append: false })
     }
 
     fn exec(&mut self, op: &Op, ctx: &mut CaseCtx) {
@@ -316,6 +322,10 @@ impl<'a> Driver<'a> {
             Op::Checkpoint => {
                 if self.store.checkpoint(snap_path(&self.live)).is_ok() {
                     ctx.label("checkpoint");
+                    if self.rotated_since_cp {
+                        ctx.label("checkpoint after a rotation");
+                    }
+                    self.rotated_since_cp = false;
                 }
             },
         }
@@ -326,6 +336,14 @@ impl<'a> Driver<'a> {
         if wal_path(&self.live).with_file_name("store.wal.1").exists() && !self.rotated {
             self.rotated = true;
             ctx.label("log rotated");
+        }
+        let ino = {
+            use std::os::unix::fs::MetadataExt;
+            std::fs::metadata(wal_path(&self.live).with_file_name("store.wal.1")).ok().map(|m| m.ino())
+        };
+        if ino != self.rot_ino {
+            self.rot_ino = ino;
+            self.rotated_since_cp = true;
         }
     }
 
@@ -347,7 +365,7 @@ impl<'a> Driver<'a> {
         }
         // classify
         let older = (0..lo).rev().find(|j| self.states[*j] == got);
-        let sig = if self.rotated && self.case.tiny_log {
+        let sig = if self.rotated_since_cp && self.case.tiny_log {
             "rotation-drops-log".to_string()
         } else if older.is_some() {
             format!("acknowledged-write-lost{suffix}")
